@@ -15,10 +15,11 @@ META = {
                   'hardware mapping of seq_cst is not modelled. Liveness (a sent message is eventually received) is only checked at quiescence by the harness, not proved.',
     'design_ref': '§6 C04',
 }
-REQUIRED_FINAL = ['Librfn.C04.mq_inv_step', 'Librfn.C04.mq_inv_reachable', 'Librfn.C04.exclusive_ownership', 'Librfn.C04.fifo_claim_order',
-                  'Librfn.C04.exactly_once', 'Librfn.C04.payload_intact', 'Librfn.C04.claim_bounded', 'Librfn.C04.claim_fails_only_if_full',
-                  'Librfn.C04.quiescent_count', 'Librfn.C04.mq_no_adjacent_conflict', 'Librfn.C04.claim_wrap_counterexample']
-REQUIRED = []
+REQUIRED = ['Librfn.C04.mq_inv_init', 'Librfn.C04.mq_inv_step', 'Librfn.C04.mq_inv_reachable', 'Librfn.C04.mq_inv_all',
+            'Librfn.C04.exclusive_ownership', 'Librfn.C04.outstanding_slots_distinct', 'Librfn.C04.claim_hands_out_unowned',
+            'Librfn.C04.fifo_claim_order', 'Librfn.C04.exactly_once', 'Librfn.C04.receive_succeeds_iff', 'Librfn.C04.payload_intact',
+            'Librfn.C04.claim_bounded', 'Librfn.C04.claim_fails_only_if_full', 'Librfn.C04.quiescent_count',
+            'Librfn.C04.mq_no_adjacent_conflict', 'Librfn.C04.shifts_defined', 'Librfn.C04.claim_wrap_counterexample', 'Librfn.C04.d2_schedule_fixed']
 MAXSEND = 7
 
 
